@@ -588,6 +588,23 @@ def render(prog):
     return _Renderer(prog).run()
 
 
+def deinline(text, pairs):
+    """`[X for ..]` -> `[*(X for ..)]` at the given ((line, col) of '[', (line, col) of ']') pairs:
+    the same list, built from a generator expression.  CPython 3.12 compiles list
+    comprehensions inline (PEP 709) and 3.12.0/3.12.1 get some programs wrong that way
+    (`[0 for a in x]` followed by `[a for _ in y]` in one function raises UnboundLocalError
+    for the global a); generator expressions are never inlined and have the same scoping."""
+    lines = [list(l) for l in text.split("\n")]
+    edits = []
+    for (o, c) in pairs:
+        edits.append((o[0], o[1], "[", "[*("))
+        edits.append((c[0], c[1], "]", ")]"))
+    for ln, col, ch, rep in sorted(edits, reverse=True):
+        assert lines[ln - 1][col] == ch
+        lines[ln - 1][col:col + 1] = list(rep)
+    return "\n".join("".join(l) for l in lines)
+
+
 def genexp_twin(r):
     """same text with every list comprehension turned into a generator expression
     (same offsets): symtable keeps those as separate tables in 3.12"""
